@@ -114,6 +114,7 @@ type cnode struct {
 	proposed    []string
 	proposedBy  []string
 	panicked    string
+	failNext    string // kind of the next message whose send fails (set by a directed schedule)
 	isReplica   bool
 	inputs      []inputRec // every input the node was given, in order: a copy of the node is obtained by replaying them
 
@@ -127,6 +128,11 @@ type cnode struct {
 func (n *cnode) SendConsensusMessage(ctx context.Context, recipients []primitives.MemberId, message *interfaces.ConsensusRawMessage) error {
 	// in some runs the transport fails now and then: the node has done its part (the message is in the trace as sent), the
 	// transport reports an error and delivers nothing; the node's state must not depend on it
+	if n.failNext != "" && n.failNext == kindOf(message) && !n.isReplica { // a schedule lets exactly this send fail
+		n.failNext = ""
+		n.sends = append(n.sends, sendRec{to: recipients, raw: message, failed: true})
+		return errors.New("transport error")
+	}
 	if n.cl.sendFailEvery > 0 && !n.isReplica {
 		n.cl.sendSeq++
 		if n.cl.sendSeq%n.cl.sendFailEvery == 0 {
